@@ -143,38 +143,8 @@ theorem gte_spec (q : Quirks) (ρ : Env) (l r : List BExp)
 theorem sub_spec (ρ : Env) (n : Nat) (l r : List BExp) :
     val ρ (qSub Quirks.none n l r)
       = (val ρ l + 2 ^ (max n (max l.length r.length)) - val ρ r) % 2 ^ (max n (max l.length r.length)) ∧
-    (qSub Quirks.none n l r).length = max n (max l.length r.length) := by
-  have hq : qSub Quirks.none n l r
-      = bitwiseNot (qAdd (bitwiseNot (fill (fill n r).length (fill n l))) (fill n r)) := rfl
-  rw [hq]
-  obtain ⟨r1, hr1⟩ : ∃ x, x = fill n r := ⟨_, rfl⟩
-  obtain ⟨l2, hl2⟩ : ∃ x, x = fill r1.length (fill n l) := ⟨_, rfl⟩
-  rw [← hr1, ← hl2]
-  have lr1 : r1.length = max n r.length := by rw [hr1, fill_length]
-  have ll2 : l2.length = max n (max l.length r.length) := by
-    rw [hl2, fill_length, fill_length, lr1]; omega
-  have vr : val ρ r1 = val ρ r := by rw [hr1, val_fill]
-  have vl : val ρ l2 = val ρ l := by rw [hl2, val_fill, val_fill]
-  have ladd : (qAdd (bitwiseNot l2) r1).length = l2.length := by
-    rw [qAdd_length, bitwiseNot_length]; omega
-  have hnl := val_bitwiseNot ρ l2
-  have ha := val_qAdd ρ (bitwiseNot l2) r1
-  have hn := val_bitwiseNot ρ (qAdd (bitwiseNot l2) r1)
-  have hmax : max (bitwiseNot l2).length r1.length = l2.length := by
-    rw [bitwiseNot_length]; omega
-  rw [hmax] at ha
-  rw [ladd] at hn
-  have hlt := val_lt ρ l2
-  have hrt := val_lt ρ r1
-  have hP : 2 ^ r1.length ≤ 2 ^ l2.length := Nat.pow_le_pow_right (by decide) (by omega)
-  rw [bitwiseNot_length, ladd, ← ll2]
-  refine ⟨?_, rfl⟩
-  rw [← vl, ← vr]
-  have key := sub_arith (val ρ l2) (val ρ r1) (2 ^ l2.length) hlt (by omega)
-  have e1 : val ρ (bitwiseNot l2) = 2 ^ l2.length - 1 - val ρ l2 := by omega
-  rw [e1] at ha
-  rw [← key, ← ha]
-  omega
+    (qSub Quirks.none n l r).length = max n (max l.length r.length) :=
+  qSub_spec ρ n l r
 
 /-- for the code as it is, `sub` is the repaired `sub` whenever the left operand (after `fill` to the
 class) is not the narrower one -/
@@ -229,20 +199,8 @@ theorem mul_spec (ρ : Env) (cl cr : Bool) (nl nr : Nat) (l r : List BExp) :
       = (val ρ l * val ρ r) % 2 ^ (qMul Quirks.none cl cr nl nr l r).1 ∧
     (qMul Quirks.none cl cr nl nr l r).2.length = (qMul Quirks.none cl cr nl nr l r).1 ∧
     (l.length = nl → r.length = nr →
-      (qMul Quirks.none cl cr nl nr l r).1 = mulSizing (max nl nr) (max nl nr)) := by
-  rw [qMul_none]
-  simp only []
-  obtain ⟨hl, hr⟩ := val_mulOperands ρ cl cr nl nr l r
-  refine ⟨?_, crop_fill_length _ _, ?_⟩
-  · rw [val_crop_fill, (val_schoolbook ρ _ _).1, hl, hr]
-  · intro h1 h2
-    have e1 : (if cl then fill nr l else l).length = if cl then max nr nl else nl := by
-      cases cl <;> simp [fill_length, h1]
-    have e2 : (if cr then fill nl r else r).length = if cr then max nl nr else nr := by
-      cases cr <;> simp [fill_length, h2]
-    rw [e1, e2]
-    congr 1 <;> cases cl <;> cases cr <;> simp only [Bool.false_eq_true, if_false, if_true] <;>
-      (repeat' split) <;> omega
+      (qMul Quirks.none cl cr nl nr l r).1 = mulSizing (max nl nr) (max nl nr)) :=
+  qMul_spec ρ cl cr nl nr l r
 
 /-- for the model of the code with the `mul_even_const` shortcut still present, `mul` is the
 schoolbook `mul` whenever neither operand is a constant -/
@@ -258,29 +216,8 @@ operand whose value is a power of two `2^k` (the literal case the repaired front
 theorem mod_spec (ρ : Env) (nr : Nat) (l r : List BExp) (k : Nat) (hn : 0 < nr)
     (hr : val ρ r = 2 ^ k) :
     val ρ (qMod Quirks.none nr l r) = val ρ l % 2 ^ k ∧
-    (qMod Quirks.none nr l r).length = max l.length (max nr r.length) := by
-  unfold qMod
-  obtain ⟨hc, hcl⟩ := qintConst_spec ρ nr 1 hn
-  obtain ⟨hs, hsl⟩ := sub_spec ρ nr r (qintConst nr 1)
-  have h2 : 2 ≤ 2 ^ nr := by
-    have := Nat.pow_le_pow_right (by decide : 0 < 2) hn; simpa using this
-  rw [Nat.mod_eq_of_lt (by omega)] at hc
-  rw [hcl] at hs hsl
-  constructor
-  · apply val_and_mask
-    rw [hs, hc, hr]
-    have hlt : 2 ^ k < 2 ^ (max nr (max r.length nr)) := by
-      have h1 := val_lt ρ r
-      have h3 : 2 ^ r.length ≤ 2 ^ (max nr (max r.length nr)) :=
-        Nat.pow_le_pow_right (by decide) (by omega)
-      omega
-    have hk : 0 < 2 ^ k := Nat.pow_pos (by decide)
-    have e : 2 ^ k + 2 ^ (max nr (max r.length nr)) - 1 = (2 ^ k - 1) + 2 ^ (max nr (max r.length nr)) := by
-      omega
-    rw [e, Nat.add_mod_right, Nat.mod_eq_of_lt (by omega)]
-    omega
-  · rw [(bitwise_spec ρ opAnd (· && ·) (fun a b => (bitwise_ops ρ a b).1) _ _).2, hsl]
-    omega
+    (qMod Quirks.none nr l r).length = max l.length (max nr r.length) :=
+  qMod_spec ρ nr l r k hn hr
 
 example : ∃ (ρ : Env) (nr : Nat) (r : List BExp) (k : Nat), 0 < nr ∧ val ρ r = 2 ^ k :=
   ⟨fun _ => false, 4, qintConst 4 4, 2, by decide, by decide⟩
